@@ -259,14 +259,19 @@ def step (atomic : Bool) (s : State) : Stmt → State × Outcome
     | none => (s, .err .badName)
     | some p => execDropSchema s p.1 p.2 ifx cascade
   | .createTable r ine orr b =>
-    -- planning: the query first, then the name; any planning error leaves the state alone
-    match planBody s b with
-    | .error e => (s, .err e)
-    | .ok pr =>
-      match resolveRef r with
-      | none => (s, .err .badName)
-      | some k => execCreateTable atomic s k ine orr pr.1 pr.2
+    -- planning: `resolve_table_references` converts the relation names the sqlparser visitor
+    -- reports — which include the name of CREATE TABLE — so a name with more than 3 parts fails
+    -- before anything is looked up; then the query is planned against the current state; any
+    -- planning error leaves the state alone
+    match resolveRef r with
+    | none => (s, .err .badName)
+    | some k =>
+      match planBody s b with
+      | .error e => (s, .err e)
+      | .ok pr => execCreateTable atomic s k ine orr pr.1 pr.2
   | .createView r orr q text =>
+    -- (sqlparser's relation visitor does not visit the name of CREATE VIEW, so here the defining
+    -- query is planned first and the name is converted afterwards, as `statement.rs` reads)
     match planQuery s q with
     | .error e => (s, .err e)
     | .ok pr =>
